@@ -525,8 +525,12 @@ def c08_circular_placeholder_in_pipe(w, v):
     (initial distance inf) keeps the placeholder where the interpreter resolves
     the cell.  Outputs frozen to a computed value are another mechanism and
     are not covered."""
-    return v['sig'].startswith('circular:differs:#CIRC!->') and \
-        str(w.get('output_default_in_function', '')).startswith('circular placeholder')
+    if not v['sig'].startswith('circular:differs:'):
+        return False
+    if str(w.get('output_default_in_function', '')).startswith('frozen'):
+        return False        # a value frozen at compile time is another mechanism
+    return str(w.get('output_default_in_function', '')).startswith(
+        'circular placeholder') or bool(w.get('circular_placeholders_upstream_in_function'))
 
 
 @matcher('c18_last_row_or_column_reference')
